@@ -122,6 +122,9 @@ func main() {
 	if lemmaUnit != nil && onlyRe == nil {
 		units = append(units, lemmaUnit)
 	}
+	if ou := eng.ownerUnit(prop); ou != nil && onlyRe == nil {
+		units = append(units, ou)
+	}
 	var boundedNotes []string
 	if prop == "C13" && onlyRe == nil {
 		N := 31
